@@ -349,19 +349,27 @@ Fixpoint frag_lines (f : frag) : list (Z * Z) :=
   | FLine w y _ _ _ _ => [(w, y)]
   | FBlk _ _ _ _ _ _ _ _ _ _ kids => flat_map frag_lines kids
   end.
+(* outcome of the page loop: all pages / ran out of fuel with content left / the root box aborted *)
+Inductive pres := PDone (pages : list (side * list (Z * Z)))
+                | PFuel (pages : list (side * list (Z * Z))) (left : option skip)
+                | PStuck (pages : list (side * list (Z * Z))).
+Definition pcons (p : side * list (Z * Z)) (r : pres) : pres :=
+  match r with PDone l => PDone (p :: l) | PFuel l x => PFuel (p :: l) x | PStuck l => PStuck (p :: l) end.
+Definition want_side (ltr : bool) (np : option brk) : option bool :=      (* Some true = right page wanted *)
+  match np with
+  | Some BLeft => Some false | Some BRight => Some true
+  | Some BRecto => Some ltr | Some BVerso => Some (negb ltr)
+  | _ => None end.
+Definition is_blank (ltr : bool) (np : option brk) (right : bool) : bool :=
+  match want_side ltr np with Some w => negb (Bool.eqb w right) | None => false end.
 Fixpoint paginate_loop (fuel : nat) (root : box) (H lh : Z) (ltr : bool) (i : nat)
-         (resume : option skip) (np : option brk) (right : bool) : list (side * list (Z * Z)) :=
+         (resume : option skip) (np : option brk) (right : bool) : pres :=
   match fuel with
-  | O => []
+  | O => PFuel [] resume
   | S fuel' =>
-      let want := match np with
-                  | Some BLeft => Some false | Some BRight => Some true
-                  | Some BRecto => Some ltr | Some BVerso => Some (negb ltr)
-                  | _ => None end in                       (* Some true = right page wanted *)
-      let blank := match want with Some w => negb (Bool.eqb w right) | None => false end in
       let c := mkCtx lh H (S i) (match np with Some _ => true | None => false end) in
-      if blank then
-        (SBlank, []) :: paginate_loop fuel' root H lh ltr (S i) resume np (negb right)
+      if is_blank ltr np right then
+        pcons (SBlank, []) (paginate_loop fuel' root H lh ltr (S i) resume np (negb right))
       else
         match root with
         | Blk rst _ _ =>
@@ -369,13 +377,15 @@ Fixpoint paginate_loop (fuel : nat) (root : box) (H lh : Z) (ltr : bool) (i : na
             | (Some r, _, _, _) =>
                 let page := ((if right then SRight else SLeft), frag_lines (b_frag r)) in
                 match b_resume r with
-                | None => [page]
-                | Some s => page :: paginate_loop fuel' root H lh ltr (S i) (Some s) (b_np r) (negb right)
+                | None => PDone [page]
+                | Some s => pcons page (paginate_loop fuel' root H lh ltr (S i) (Some s) (b_np r) (negb right))
                 end
-            | _ => []     (* root aborted: cannot happen when the page is empty *)
+            | _ => PStuck []     (* root aborted: cannot happen when the page is empty *)
             end
-        | _ => []
+        | _ => PStuck []
         end
   end.
-Definition paginate (root : box) (H lh : Z) : list (side * list (Z * Z)) :=
+Definition paginate_res (root : box) (H lh : Z) : pres :=
   paginate_loop 500 root H lh true 0 None None true.
+Definition paginate (root : box) (H lh : Z) : list (side * list (Z * Z)) :=
+  match paginate_res root H lh with PDone l => l | _ => [] end.
